@@ -23,7 +23,7 @@ var (
 )
 
 var results = []string{"ok0", "ok1", "e1", "wrapped-e1", "e2", "e1+outputs"}
-var filters = []string{"PoisonQueue", "all", "none", "is-e1", "text-second"}
+var filters = []string{"PoisonQueue", "all", "none", "is-e1", "text-second", "identical-to-e1", "wrapped-only"}
 var metas = []string{"empty", "some", "pre-poisoned"}
 
 func handlerResult(kind string, m *message.Message) ([]*message.Message, error) {
@@ -54,6 +54,10 @@ func accepts(filter string, err error) bool {
 		return stderrors.Is(err, e1)
 	case "text-second":
 		return strings.Contains(err.Error(), "second")
+	case "identical-to-e1": // the very error value, not something wrapping it
+		return err == e1
+	case "wrapped-only": // only errors that wrap another one
+		return errors.Cause(err) != err
 	}
 	return false
 }
